@@ -334,6 +334,17 @@ impl DBM {
             "UPDATE towers SET available_slots=?1 WHERE tower_id=?2",
             params![available_slots, tower_id.to_vec()],
         )?;
+        // An accepted appointment is not invalid (for this tower) anymore. Its body goes with the last reference to it.
+        tx.execute(
+            "DELETE FROM invalid_appointments WHERE locator=?1 AND tower_id=?2",
+            params![locator.to_vec(), tower_id.to_vec()],
+        )?;
+        tx.execute(
+            "DELETE FROM appointments WHERE locator=?1
+                AND locator NOT IN (SELECT locator FROM pending_appointments)
+                AND locator NOT IN (SELECT locator FROM invalid_appointments)",
+            params![locator.to_vec()],
+        )?;
         tx.commit()
     }
 
